@@ -178,7 +178,7 @@ func (c *Ctx) runSignExt(r *Report, rule string, pkgs func(string) bool) {
 				return true
 			}
 			n++
-			cons := fn.id() + ":" + types.ExprString(exprOf(nd))
+			cons := fn.id() + ":" + noSpace(types.ExprString(exprOf(nd)))
 			ord[cons]++
 			if ord[cons] > 1 {
 				cons += "#" + itoa(ord[cons])
